@@ -13,6 +13,7 @@ Streams
   intkeys       unknown fields whose key is an integer token (binary): the property says ignored
 """
 import struct
+import sys
 from props import dedoc as D
 from props.dedoc import hx
 from props import C18_table
@@ -39,7 +40,8 @@ def _tag(s):
 
 WITH = {"de_plus1": (("u", 32), _plus1), "de_tag": ("str", _tag), "de_some_plus1": (("u", 32), lambda s: "(some %s)" % _plus1(s))}
 
-NEW = ["DW", "DWT", "DK", "DO", "DOF", "DAr", "DGen_u32", "DGen_String", "DGen_DOF", "DGW_u32", "DGW_String", "DGT_i32", "DL", "DN"]
+NEW = ["DW", "DWT", "DK", "DO", "DOF", "DAr", "DGen_u32", "DGen_String", "DGen_DOF", "DGW_u32", "DGW_String", "DGT_i32", "DL", "DN",
+       "D1T"]      # w_derive: one field, with a token (key hint `token_count > 0`)
 
 _cache = {}
 
@@ -263,6 +265,10 @@ def run(ctx, C18):
         classify(ctx, "attrs-semantics-" + p.split(":")[0], pcases[k], impl[base + k], exp)
     ctx.correspond("attrs_model", mcases, nontrivial=nt)
     ctx.correspond("attrs_spec", scases, nontrivial=nt)
+    # >>> w_derive: the proc-macro model instantiated with the facts generated from lib.rs (DeriveCode.visit_raw code_facts)
+    from props import C18_code
+    C18_code.run(ctx, C18, sys.modules[__name__], mcases)
+    # <<< w_derive
 
     run_perm(ctx, C18)
     run_intkeys(ctx, C18)
